@@ -1,14 +1,17 @@
 SPECIFICATION Spec
-CONSTANTS MaxPre = 1 MaxN = 6
+CONSTANTS MaxPre = 1 MaxN = 5
   PreAlphabet <- AlphaFull
   Accs <- AccsAll
   Posts <- PostsMid
-  Pairs = {TRUE, FALSE}
+  FlowKinds = {"bare", "pairs", "ctx"}
   Drivers = {"fill"}
+  Places = {"alone"}
+  CopyMode = "per_branch"
   Bufs <- BufOne
 INVARIANT DriversAgree
 INVARIANT FillReaches
 INVARIANT StopSound
 INVARIANT ComputeOnce
+INVARIANT BufBound
 INVARIANT Emitted
 CHECK_DEADLOCK FALSE
